@@ -461,7 +461,7 @@ PLANS["C05"] = {
         # single failed calls followed by acknowledged writes on the same handle, then close / reopen: what a failed
         # call left behind in memory must not reach the disk with the next write
         T("fault-reopen", "-", (4, 40), ["InvFault", "InvFaultRest", "InvReopen", "InvNoPanic"], cmd="fault",
-          args=["-mode", "one", "-targets", "1", "-followup", "4", "-reopen", "2", "-backends", "bolt,badger"], chunk=1, seed_off=29),
+          args=["-mode", "one", "-targets", "5", "-followup", "4", "-reopen", "2", "-backends", "bolt,badger"], chunk=1, seed_off=29),
         # an insert of about 11 MB (beyond badger's transaction size limit) abandoned at every 23rd store call
         T("abandon-huge", "-", (2, 8), ["InvFault", "InvFaultRest", "InvReopen", "InvNoPanic"], cmd="fault",
           args=["-mode", "abandon", "-huge", "-backends", "badger,bolt"], chunk=1, heap="8g", seed_off=41),
